@@ -277,7 +277,7 @@ Parser::Tokenizer::int64(int64_t & result, int base, bool allowSign, const SBuf:
     cutoff /= static_cast<uint64_t>(base);
 
     int any = 0, c;
-    int64_t acc = 0;
+    uint64_t acc = 0; // unsigned: the magnitude of INT64_MIN does not fit int64_t
     do {
         c = *s;
         if (xisdigit(c)) {
